@@ -67,7 +67,10 @@ RULE = ('cases: prog = header parameters (opcode_base 1..255 incl. <13, line_ran
         'one table through the cache from units of the same and of different DWARF versions, compile units of '
         '.debug_info and type units of .debug_types (with DW_AT_stmt_list) side by side, in any order; LEB128 operands '
         'and header numbers now and then padded to 18-41+ bytes; every case reads its sections from a drawn stream '
-        'kind (BytesIO, buffered files, 16-byte buffer, mmap, gzip, decoy descriptor); raw = random bytes '
+        'kind (BytesIO, buffered files, 16-byte buffer, mmap, gzip, decoy descriptor); far = two forced cases per run '
+        'on a sparse real .debug_line of more than 4 GiB: one 64-bit-DWARF unit at 0x40, a different one at 2**32+0x40, '
+        'units whose DW_AT_stmt_list holds those offsets (expected: C05_unit_rows with the long prefix; the executable '
+        'model decodes the same unit at 0x40 and the offsets are shifted); raw = random bytes '
         '(model vs implementation only, out of domain); real = the line tables of 54 real objects (18 gcc/gas and '
         'clang builds over -gdwarf-2..5, -gdwarf64, -m32, -O0..2; every linked ELF file of the library test '
         'directories incl. ARM, MIPS, SPARC, TI and Solaris producers) against the rows, include directories and '
@@ -374,7 +377,28 @@ def gen(ctx):
                 cuvers = places = None
             cases.append((kind, [le, k, line_str, strsec, units, _garbage(rng, rng.choice([0, 4])), lookups, cuvers,
                                  supsec, places, _draw_kind(rng)]))
+    # ---- far: a .debug_line section larger than 4 GiB (64-bit DWARF exists for this): one unit at 0x40, a DIFFERENT
+    # one at 2**32 + 0x40, looked up through 64-bit units whose DW_AT_stmt_list holds those offsets, in either order
+    for _ in range(ctx.scale(2, 8)):
+        le = rng.random() < 0.6
+        line_str, lsrefs = _strpool(rng)
+        strsec, srefs = _strpool(rng)
+        supsec, suprefs = _strpool(rng)
+        units = []
+        for _u in range(2):
+            version = rng.choice([2, 3, 4, 5, 5])
+            addr = rng.choice([4, 8])
+            hdr = gen_header(rng, version, True, addr, lsrefs, srefs, suprefs=suprefs)
+            prog = gen_prog(rng, hdr[4], addr, rng.randint(3, 25), allow_define_file=False)  # repeated lookups share the header
+            units.append([hdr, prog, b''])
+        lookups = rng.choice([[0, 1], [1, 0], [1], [1, 0, 1]])
+        cases.append(('far', [le, rng.choice([0, 1]), line_str, strsec, units, b'', lookups,
+                              [rng.choice([3, 4, 5]) for _x in lookups], supsec, [int(rng.random() < 0.3) for _x in lookups],
+                              0]))
     return cases
+
+
+FAR_LOW, FAR_HIGH = 0x40, 2 ** 32 + 0x40
 
 
 # ------------------------------------------------------------------ implementation adapters
@@ -576,7 +600,7 @@ def evaluate(ctx, cases):
     for ci, (kind, a) in enumerate(cases):
         if kind == 'prog':
             req1.append(['encode_prog', [a[0], a[1]], a[4]]); slots.append((ci, None))
-        elif kind in ('unit', 'cu'):
+        elif kind in ('unit', 'cu', 'far'):
             for ui, (hdr, prog, gap) in enumerate(a[4]):
                 req1.append(['encode_prog', [a[0], hdr[2]], prog]); slots.append((ci, ui))
     ans1 = drv.batch(req1)
@@ -591,7 +615,7 @@ def evaluate(ctx, cases):
             le, addr, version, params, prog = a[0], a[1], a[2], a[3], a[4]
             req2 += [['wf_prog', [le, addr], params, prog], ['rows_spec', params, prog]]
             tags += [(ci, None, 'wf'), (ci, None, 'rows')]
-        elif kind in ('unit', 'cu'):
+        elif kind in ('unit', 'cu', 'far'):
             le, k, line_str, strsec = a[0], a[1], a[2], a[3]
             for ui, (hdr, prog, gap) in enumerate(a[4]):
                 pb = pbytes[(ci, ui)]
@@ -620,6 +644,14 @@ def evaluate(ctx, cases):
             built[ci] = (data, 0, end)
             req3.append(['model_decode', [le, addr], params, version < 5, data, 0, end])
             tags3.append(ci)
+        elif kind == 'far':
+            # the executable model cannot hold 4 GiB of bytes: it decodes each unit placed at FAR_LOW of a small section;
+            # C05_unit_rows holds for any prefix, so at FAR_HIGH the same view and rows come with offsets shifted
+            le, k, line_str, strsec, units = a[:5]
+            for ui in (0, 1):
+                secs = [b'\xee' * FAR_LOW + info[(ci, ui, 'bytes')], line_str, strsec, a[8]]
+                req3.append(['model_units', secs, [[[le, True, units[ui][0][2]], FAR_LOW]]])
+                tags3.append((ci, ui))
         elif kind == 'real':
             label, le, line, line_str, strsec, units = a
             secs = [line, line_str if line_str is not None else 'none', strsec if strsec is not None else 'none']
@@ -714,6 +746,8 @@ def _pass4(ctx, cases, built, info, ans3, S):
                            nontrivial=isinstance(spec, list) and len(spec[1][0]) > 0, key=_key(a, impl, spec))
             else:
                 ctx.record(kind, a, impl=impl, spec=model, model=model, in_domain=False, nontrivial=len(a[4]) > 1)
+        elif kind == 'far':
+            _far_case(ctx, ci, a, info, ans3, S)
         elif kind == 'real':
             label, le, line, line_str, strsec, units = a
             def run():
@@ -805,6 +839,54 @@ def _pass4(ctx, cases, built, info, ans3, S):
             mres = [_unit_with_table(r) for r in ans3[ci]] if isinstance(ans3[ci], list) else ans3[ci]
             ctx.record(kind, a, impl=impl, spec=exp, model=mres, in_domain=wf, nontrivial=nt,
                        key=kind + '-mismatch')
+
+
+def _far_case(ctx, ci, a, info, ans3, S):
+    from elftools.dwarf.dwarfinfo import DebugSectionDescriptor
+    le, k, line_str, strsec, units, _trail, lookups, cuvers, supsec, places = a[:10]
+    ub = [info[(ci, 0, 'bytes')], info[(ci, 1, 'bytes')]]
+    at = [FAR_LOW, FAR_HIGH]
+    wf = all(bool(info[(ci, ui, 'wfh')]) and bool(info[(ci, ui, 'wf')]) for ui in (0, 1))
+    exp, mres = [], []
+    for x in lookups:
+        view, st, en = info[(ci, x, 'view')]
+        exp.append(_unit_with_table(['ok', [[view, st + at[x], en + at[x]], info[(ci, x, 'rows')]]]))
+        m = ans3[(ci, x)]
+        m = m[0] if isinstance(m, list) and len(m) == 1 else m
+        if isinstance(m, list) and len(m) == 2 and m[0] == 'ok' and isinstance(m[1], list):
+            (mv, mst, men), mdec = m[1]
+            m = ['ok', [[mv, mst + at[x] - FAR_LOW, men + at[x] - FAR_LOW], mdec]]
+        mres.append(_unit_with_table(m))
+    def run():
+        # a sparse real file: holes read as zeros, only the two units take disk blocks
+        path = S.path_of(b'')
+        with open(path, 'r+b') as f:
+            f.seek(FAR_LOW); f.write(ub[0])
+            f.seek(FAR_HIGH); f.write(ub[1])
+        size = FAR_HIGH + len(ub[1])
+        st = open(path, 'rb')
+        try:
+            cus = [(cuvers[j], True, units[x][0][2], at[x]) for j, x in enumerate(lookups)]
+            dinfo, dtypes, dabbrev = _build_units(le, cus, places, sig_seed=len(ub[0]))
+            di = _dwarfinfo(le, b'', line_str, strsec, dinfo, dabbrev, sup=supsec, types=dtypes)
+            di.debug_line_sec = DebugSectionDescriptor(st, '.debug_line', None, size, 0)
+            cu_objs, tu_objs = iter(list(di.iter_CUs())), iter(list(di.iter_TUs()))
+            out = []
+            for j in range(len(lookups)):
+                cu = next(tu_objs) if places[j] else next(cu_objs)
+                def one():
+                    lp = di.line_program_for_CU(cu)
+                    if lp is None:
+                        return ['ok', 'none']
+                    return ['ok', [_view(lp), _decoded(lp, size)]]
+                out.append(impl_call(one))
+            return out
+        finally:
+            st.close()
+    impl = impl_call(run)
+    ctx.bump('far_first_lookup', 'high' if lookups[0] == 1 else 'low')
+    ctx.record('far', a, impl=impl, spec=exp, model=mres, in_domain=wf, nontrivial=True,
+               key='statement-list-offset-beyond-4GiB')
 
 
 def _key(a, impl, spec):
